@@ -457,14 +457,36 @@ def main(modname):
             for sh_i in range(nsh):
                 jobs.append((modname, s.name, tier, seed, sh_i, nsh, per, corpus if sh_i == 0 else []))
         ncpu = min(len(jobs), int(os.environ.get("VERIF_JOBS", str(os.cpu_count() or 4))))
-        if ncpu <= 1:
-            results = [_run_shard(j) for j in jobs]
-        else:
-            with mp.get_context("fork").Pool(ncpu) as pool:
-                results = pool.map(_run_shard, jobs, chunksize=1)
-        for r in results:
-            if "harness_error" in r:
-                raise HarnessError(r["harness_error"])
+
+        def run_jobs(js):
+            if ncpu <= 1:
+                rs = [_run_shard(j) for j in js]
+            else:
+                with mp.get_context("fork").Pool(ncpu) as pool:
+                    rs = pool.map(_run_shard, js, chunksize=1)
+            for r in rs:
+                if "harness_error" in r:
+                    raise HarnessError(r["harness_error"])
+            return rs
+
+        results = run_jobs(jobs)
+        # Source drift (harness/drift.py): definitions of esrally that differ from the tree the models were last validated on.
+        # The correspondence to a changed definition has never been exercised, so before saying "holds" the same streams run
+        # again under further seeds (a wider failing-input search). Drift itself is not a verdict.
+        from harness import drift as _drift
+
+        changed, lock_commit = _drift.drift(REPO)
+        extra = 0
+        try:
+            max_extra = int(os.environ.get("VERIF_ESCALATE", "2"))
+        except ValueError:
+            max_extra = 2
+        if changed and not args.streams:
+            while extra < max_extra and not any(r["fails"] or r["diffs"] for r in results):
+                extra += 1
+                results += run_jobs([(m, sn, t, seed + extra, si, n, per, []) for (m, sn, t, _s, si, n, per, _c) in jobs])
+        ba["drift"] = {"locked_repo_commit": lock_commit, "changed_definitions": changed[:40], "changed_count": len(changed), "extra_passes": extra,
+                       "extra_seeds": [seed + i for i in range(1, extra + 1)]}
         return verdict(mod, tier, seed, ba, streams, results, t0)
     except HarnessError as e:
         print(f"HARNESS-ERROR: {e}", file=sys.stderr)
@@ -565,6 +587,7 @@ def verdict(mod, tier, seed, ba, streams, results, t0):
             "samples": [{"stream": n, "case": c} for n, p in per.items() for c in p["samples"][:2]][:8] or [{"note": "no stream case"}],
             "streams": {n: {"evaluations": p["evaluations"], "distinct_signatures": len(p["sigs"]), "differences": len(p["diffs"]), "oracle_failures": len(p["fails"]), "lean_calls": p["lean_calls"], "wall_s": round(p["wall_s"], 2), "distribution": dict(sorted(p["dist"].items())[:80]), "notes": p["notes"]} for n, p in per.items()},
             "known_findings_confirmed": known_confirmed,
+            "source_drift": ba.get("drift", {}),
             "exhaustive": exhaustive,
             "explanation": "obligations = property theorems (each audited with #print axioms) + audit greps + translator runs + correspondence streams; evaluations/distinct_nontrivial describe the correspondence sampling only and are not part of the proof",
         },
